@@ -70,6 +70,8 @@ func main() {
 			timedOps(o, seed, n, corpus+"/fens.txt")
 		case "conc":
 			concOps(o, seed, n)
+		case "proc":
+			procOps(o, seed, n, corpus+"/fens.txt")
 		case "deep":
 			deepOps(o, seed, n, corpus+"/fens.txt")
 		case "search":
